@@ -43,11 +43,14 @@ class WalkCfg(Cfg):
         self.rec_escape = rec_escape
 
     def raises(self, kind, text, node, st):
-        if kind != "call":
+        if kind not in ("call", "iter"):
             return ()
         f = text.split("(")[0]
         if f in ("self.listdir", "self.stat"):
+            # "iter": the listing is consumed lazily (a generator expression, or the iterator itself): each next() can fail
             return list(KINDS)
+        if kind == "iter":
+            return ()
         if f == "self.walk":
             return sorted(self.rec_escape)
         return ()
@@ -197,6 +200,8 @@ def run(ctx) -> None:
 DS = "utils/dirsnapshot.py"
 PO = "observers/polling.py"
 VARIANTS = [
+    dict(name="B listing consumed lazily outside the guarded region", expect="fire", rule="C10/tolerant-walk-at-every-position", edits=[("utils/dirsnapshot.py", "            paths = [os.path.join(root, entry.name) for entry in self.listdir(root)]", "            paths = (os.path.join(root, entry.name) for entry in self.listdir(root))")]),
+    dict(name="E listing materialised with list() inside the guarded region", expect="silent", edits=[("utils/dirsnapshot.py", "            paths = [os.path.join(root, entry.name) for entry in self.listdir(root)]", "            paths = list(os.path.join(root, entry.name) for entry in self.listdir(root))")]),
     dict(name="B drop ENOTDIR from the errno tuple", expect="fire", rule="C10/tolerant-walk-at-every-position", edits=[(DS, "if e.errno in (errno.ENOENT, errno.ENOTDIR, errno.EINVAL):", "if e.errno in (errno.ENOENT, errno.EINVAL):")]),
     dict(name="B drop suppress(OSError) around stat", expect="fire", rule="C10/tolerant-walk-at-every-position", edits=[(DS, "            with contextlib.suppress(OSError):\n                entry = (p, self.stat(p))\n                entries.append(entry)\n                yield entry", "            if True:\n                entry = (p, self.stat(p))\n                entries.append(entry)\n                yield entry")]),
     dict(name="B drop suppress(PermissionError)", expect="fire", rule="C10/tolerant-walk-at-every-position", edits=[(DS, "                with contextlib.suppress(PermissionError):\n                    if S_ISDIR(st.st_mode):\n                        yield from self.walk(path)", "                if True:\n                    if S_ISDIR(st.st_mode):\n                        yield from self.walk(path)")]),
